@@ -29,6 +29,9 @@ func runLocking(c LockCase, id string, check lockChecker, final lockChecker) Out
 	}
 	defer w.close()
 	for bi, lb := range c.Blocks {
+		if w.touchesPowerCap(lb) {
+			w.powerBeyondCap = true
+		}
 		if err := w.step(bi, lb); err != nil {
 			if id == "C13" {
 				sig := "block-processing-failed"
@@ -36,6 +39,13 @@ func runLocking(c LockCase, id string, check lockChecker, final lockChecker) Out
 					sig = "consensus-engine-rejects-updates/" + classifyCometError(err.Error())
 				} else if strings.Contains(err.Error(), "FinalizeBlock") {
 					sig = "finalize-block-failed/" + classifyFinalizeError(err.Error())
+				}
+				if w.powerBeyondCap && sig != "consensus-engine-rejects-updates/total-power-overflow" {
+					// one root cause (known finding): voting power is not bounded; beyond the cap the uint64
+					// arithmetic on powers also wraps around (e.g. weight 2^63+5 on 2 tokens gives power 10,
+					// and the next decrease clamps an active validator with holdings to power 0)
+					o.Classes = append(o.Classes, "beyond-cap:"+sig)
+					sig = "consensus-engine-rejects-updates/total-power-overflow"
 				}
 				o.Fail = failf("blocks-never-fail", sig, "block %d: %v", bi, err)
 				return o
